@@ -59,7 +59,8 @@ def special_line_world(rng, g):
         segs.append({"length": rng.choice([100e3, 300e3, 800e3, 2000e3]), "thickness": [rng.choice([50e3, 100e3, 200e3])],
                      "angle": [a0] if rng.random() < 0.5 else [a0, rng.choice([10, 40, 70])]})
         if kind == "subducting plate" and rng.random() < 0.3:
-            segs[-1]["top truncation"] = [rng.choice([-50e3, -10e3, 20e3])]
+            # incl. truncations that extend the slab above its surface by more than its thickness (the culling bounds must cover that side)
+            segs[-1]["top truncation"] = [rng.choice([-50e3, -10e3, 20e3, -300e3, -500e3])]
     f = {"model": kind, "name": "L", "coordinates": pts, "dip point": dip, "segments": segs,
          "min depth": rng.choice([0, 0, 50e3, 150e3, 300e3]), "max depth": rng.choice([1e7, 700e3]),
          "composition models": [{"model": "uniform", "compositions": [0]}], "temperature models": [{"model": "uniform", "temperature": 600}]}
@@ -73,7 +74,7 @@ def culling_queries(rng, g, w, n):
     f = w["features"][0]
     pts, dip = f["coordinates"], f["dip point"]
     total = sum(s["length"] for s in f["segments"])
-    th = max(max(s["thickness"]) for s in f["segments"])
+    th = max(max(max(s["thickness"]), -min(s.get("top truncation", [0]))) for s in f["segments"])
     md = f.get("min depth", 0)
     out = []
     # broad sampling of the whole region the slab can reach (members are then identified by the shortcuts-off answer)
